@@ -367,6 +367,11 @@ Ltac solveQ :=
   repeat match goal with
   | Y : side |- _ => destruct Y
   | b : bool |- _ => destruct b
+  end; simpl in *;
+  repeat match goal with
+  | H : negb _ = true |- _ => apply negb_true_iff in H
+  | H : negb _ = false |- _ => apply negb_false_iff in H
+  | H : _ || _ = false |- _ => apply orb_false_iff in H; destruct H
   end; simpl in *; intuition (try congruence; try discriminate; try lia).
 
 Ltac inv5 H := destruct H as (Hp & Hc & Hne & Hq & Hn & Hl & HQC & HQS).
@@ -484,3 +489,105 @@ Proof.
          try (destruct fc; reflexivity)).
     + inversion Hh; subst; clear Hh. rewrite app_nil_r. exact H0.
 Qed.
+
+Lemma guarded5 pol : forall evs st,
+  respects true pol st evs = true -> injects_live pol st evs = true -> guarded pol G5 st evs.
+Proof.
+  induction evs as [|e evs IH]; intros st HR HL; simpl; [exact Logic.I|].
+  simpl in HR, HL. apply andb_true_iff in HR as [A HR]. apply andb_true_iff in HL as [B HL].
+  split; [split; assumption|]. apply IH; assumption.
+Qed.
+
+Lemma I5_init c : Inv I5 (init c) [].
+Proof.
+  split; [|reflexivity]. unfold I5. simpl.
+  repeat split; auto; try discriminate; intros A; discriminate.
+Qed.
+
+(* T5 (partial) *)
+Lemma no_late_send pol c evs :
+  respects true pol (init c) evs = true -> injects_live pol (init c) evs = true ->
+  late_send (snd (run pol (init c) evs)) = false.
+Proof.
+  intros HR HL. destruct (run pol (init c) evs) as [st out] eqn:H.
+  pose proof (I_run pol G5 I5 I5_handle I5_direct I5_enqueue I5_resume I5_queue evs _ _ _ _
+                    (guarded5 pol evs _ HR HL) (I5_init c) H) as [HI _].
+  inv5 HI. exact Hl.
+Qed.
+
+(* T3: a close handled while the peer is still readable is propagated as a half-close (and nothing else),
+   the layer keeps relaying, and the next chunk from the peer goes through the hook and is sent, with
+   the addon edit, to the side that closed *)
+Lemma half_close_step pol st from :
+  crashed st = false -> pr (cf st) = TCP -> ph st = PRelay -> wait st = NoWait -> queue st = [] ->
+  can_read (conn_of st (other from)) = true ->
+  let '(st1, o1) := arrive pol st (EClosed from) in
+  o1 = [HalfClose (other from)] /\ ph st1 = PRelay /\ wait st1 = NoWait /\ crashed st1 = false /\
+  can_read (conn_of st1 from) = false /\ can_read (conn_of st1 (other from)) = true /\
+  can_write (conn_of st1 (other from)) = false /\
+  forall d, let '(st2, o2) := arrive pol st1 (EData (other from) d) in
+    if ignore (cf st) then o2 = [SendData from d]
+    else o2 = [MessageHook] /\
+         forall a err, snd (arrive pol st2 (EReply a err)) =
+           [SendData from (match edit (pol (messages (fl st2)) a) with Some c => c | None => d end)].
+Proof.
+  destruct st as [[p ig so] ph0 w q [clr clw] [svr svw] f cr]. simpl. intros -> -> -> -> -> Hr.
+  destruct from; simpl in Hr; subst; unfold arrive; simpl.
+  - destruct svw; simpl; (repeat split; auto); intros d; destruct ig; simpl; auto;
+      (split; [reflexivity|]); intros a err; unfold apply_edit; simpl;
+      destruct (edit (pol ((false, d) :: messages f) a)); unfold last_content; rewrite messages_apply_kill; reflexivity.
+  - destruct clw; simpl; (repeat split; auto); intros d; destruct ig; simpl; auto;
+      (split; [reflexivity|]); intros a err; unfold apply_edit; simpl;
+      destruct (edit (pol ((true, d) :: messages f) a)); unfold last_content; rewrite messages_apply_kill; reflexivity.
+Qed.
+
+(* ---------- statements used by Props/C29.v *)
+Lemma exact_relay_full pol c evs :
+  ignore c = false ->
+  let '(st, out) := run pol (init c) evs in
+  forall from_client : bool,
+    sends (side_of (negb from_client)) out = rec_of from_client (sent_msgs st) /\
+    ((forall to, wait st <> WMsgHook to) ->
+     sends (side_of (negb from_client)) out = recorded from_client (fl st)).
+Proof.
+  intros Hi. pose proof (exact_relay pol c evs Hi) as H.
+  destruct (run pol (init c) evs) as [st out]. intros fc. split; [apply H|].
+  intros Hw. rewrite H. unfold sent_msgs. destruct (wait st) eqn:Ew; try reflexivity.
+  exfalso. apply (Hw to). reflexivity.
+Qed.
+
+Definition keep : action := mkAction None false.
+Definition loss_witness : list event :=
+  [EStart; EClosed Client; EData Server [x6c; x61; x74; x65]; EClosed Server; EReply keep false; EReply keep false].
+Lemma no_loss_refuted :
+  exists pol c evs X,
+    ignore c = false /\ respects false pol (init c) evs = true /\
+    let '(st, out) := run pol (init c) evs in
+    wait st = NoWait /\ queue st = [] /\
+    length (recorded (is_client X) (fl st)) + count_data X (queue st) < count_data X evs.
+Proof.
+  exists pol_id, (mkCfg TCP false true), loss_witness, Server. vm_compute. repeat split; auto.
+Qed.
+
+Definition late_witness : list event :=
+  [EStart; EReply keep false; EClosed Client; EInject true [x61]; EReply keep false].
+Lemma no_late_send_refuted :
+  exists pol c evs,
+    respects true pol (init c) evs = true /\ late_send (snd (run pol (init c) evs)) = true.
+Proof. exists pol_id, (mkCfg TCP false true), late_witness. vm_compute. split; reflexivity. Qed.
+
+Definition demo : list event :=
+  [EStart; EReply keep false; EReply keep false;
+   EData Client [x61]; EData Server [x62]; EReply (mkAction (Some [x41; x42]) false) false; EReply keep false;
+   EClosed Client; EData Server [x63]; EInject false [x64]; EReply keep true; EReply keep false;
+   EClosed Server; EReply keep false].
+Lemma demo_run :
+  let c := mkCfg TCP false false in
+  respects true pol_id (init c) demo = true /\ injects_live pol_id (init c) demo = true /\
+  let '(st, out) := run pol_id (init c) demo in
+  out = [StartHook; OpenConnection; MessageHook; SendData Server [x41; x42]; MessageHook; SendData Client [x62];
+         HalfClose Server; MessageHook; SendData Client [x63]; MessageHook; SendData Client [x64];
+         CloseConnection Client; EndHook] /\
+  ph st = PDone /\ wait st = NoWait /\ f_live (fl st) = false /\ f_error (fl st) = true /\
+  recorded true (fl st) = [[x41; x42]] /\ recorded false (fl st) = [[x62]; [x63]; [x64]].
+Proof. vm_compute. repeat split; reflexivity. Qed.
